@@ -1016,14 +1016,14 @@ def handle : List String → String
     | some af, some (src, []) => "ok " ++ encRes (compile af src)
     | _, _ => "bad-op"
   | "run" :: toks =>
-    -- spec | code as it stands | specified | one deviation repaired at a time (3 variants)
+    -- spec | treeBuild with repair mask 0 … 7 (bit 0 = outerCopyParent repaired, bit 1 =
+    -- keepInUnknown repaired, bit 2 = shallowSibling repaired; 0 = code as it stands, 7 = specified)
     match parseTree toks with
     | some (src, []) =>
       "ok " ++ " | ".intercalate
-        [encRes (flattenSpec src), encRes (compile AsFound.code src), encRes (compile AsFound.specified src),
-         encRes (compile { AsFound.code with outerCopyParent := false } src),
-         encRes (compile { AsFound.code with keepInUnknown := false } src),
-         encRes (compile { AsFound.code with shallowSibling := false } src)]
+        (encRes (flattenSpec src) :: (List.range 8).map (fun m =>
+          encRes (compile { outerCopyParent := m % 2 == 0, keepInUnknown := (m / 2) % 2 == 0,
+                            shallowSibling := (m / 4) % 2 == 0 } src)))
     | _ => "bad-op"
   | "check" :: toks =>
     -- check <tree> <obs>: P̂ on the implementation's observation
